@@ -3,6 +3,7 @@ package interp
 import (
 	"fmt"
 	"go/constant"
+	"go/token"
 	"log"
 	"math"
 	"path/filepath"
@@ -35,6 +36,44 @@ var constOp = map[action]func(*node){
 	aBitNot: bitNotConst,
 	aNeg:    negConst,
 	aPos:    posConst,
+
+	aEqual:        equalConst,
+	aNotEqual:     notEqualConst,
+	aLower:        lowerConst,
+	aLowerEqual:   lowerEqualConst,
+	aGreater:      greaterConst,
+	aGreaterEqual: greaterEqualConst,
+}
+
+func equalConst(n *node)        { compareConst(n, token.EQL) }
+func notEqualConst(n *node)     { compareConst(n, token.NEQ) }
+func lowerConst(n *node)        { compareConst(n, token.LSS) }
+func lowerEqualConst(n *node)   { compareConst(n, token.LEQ) }
+func greaterConst(n *node)      { compareConst(n, token.GTR) }
+func greaterEqualConst(n *node) { compareConst(n, token.GEQ) }
+
+// compareConst computes the result of the comparison of two constant operands.
+func compareConst(n *node, tok token.Token) {
+	c0, c1 := constantOf(n.child[0].rval), constantOf(n.child[1].rval)
+	if c0 == nil || c1 == nil {
+		return // Not constants of a basic type: compare at run time.
+	}
+	n.rval = reflect.New(n.typ.rtype).Elem()
+	n.rval.SetBool(constant.Compare(c0, tok, c1))
+}
+
+// logicalConst computes the result of the logical operation && or || on two constant operands.
+func logicalConst(n *node) {
+	c0, c1 := constantOf(n.child[0].rval), constantOf(n.child[1].rval)
+	if c0 == nil || c1 == nil || c0.Kind() != constant.Bool || c1.Kind() != constant.Bool {
+		return
+	}
+	tok := token.LAND
+	if n.kind == lorExpr {
+		tok = token.LOR
+	}
+	n.rval = reflect.New(n.typ.rtype).Elem()
+	n.rval.SetBool(constant.BoolVal(constant.BinaryOp(c0, tok, c1)))
 }
 
 var constBltn = map[string]func(*node){
@@ -1810,7 +1849,14 @@ func (interp *Interpreter) cfg(root *node, sc *scope, importPath, pkgName string
 			setFNext(n.child[0], n)
 			n.child[1].tnext = n
 			n.typ = n.child[0].typ
-			n.findex = sc.add(n.typ)
+			n.typ.TypeOf() // Force compute of reflection type.
+			if logicalConst(n); n.rval.IsValid() {
+				// The operands are constants, and so is the result.
+				n.gen = nop
+				n.findex = notInFrame
+			} else {
+				n.findex = sc.add(n.typ)
+			}
 			if n.start.action == aNop {
 				n.start.gen = branch
 			}
@@ -1825,7 +1871,14 @@ func (interp *Interpreter) cfg(root *node, sc *scope, importPath, pkgName string
 			setFNext(n.child[0], n.child[1].start)
 			n.child[1].tnext = n
 			n.typ = n.child[0].typ
-			n.findex = sc.add(n.typ)
+			n.typ.TypeOf() // Force compute of reflection type.
+			if logicalConst(n); n.rval.IsValid() {
+				// The operands are constants, and so is the result.
+				n.gen = nop
+				n.findex = notInFrame
+			} else {
+				n.findex = sc.add(n.typ)
+			}
 			if n.start.action == aNop {
 				n.start.gen = branch
 			}
